@@ -3,14 +3,16 @@ C11 — geometric operations are rigid motions with the documented effect.
 
 Proof:  Molli.Props.C11 over Molli.Model.Geom (any field): rotVec_orth/det/maps(+direction), rotVec_antiparallel
         (both variants), rotVecFull_spec, rotVec_antiparallel_ordered, rotVecFull_spec_ordered (no side condition left over ordered fields), rotAxis_orth/det/fixes_axis/angle(+row_angle), rigid_dist, rigid_chirality,
-        substructure_moves_only_selected, moved_part_rigid, dihedral_after_rotation, rotate_dihedral_hits_target
+        substructure_moves_only_selected, substructure_view_moves_its_atoms,
+        substructure_view_survives_parent_edits (+ substructure_cached_rows_counterexample), moved_part_rigid, dihedral_after_rotation, rotate_dihedral_hits_target
         (+ _counterexample / _shipped_partial for the code as shipped: D23), centroid_after_centering,
         ens_conformerwise, align_reports_achieved, align_rigid.
 Tie:    (i) rational test points (Pythagorean quadruples, tangent half-angle): the real numpy functions vs the
         model run over exact rationals in the Lean driver, entry-wise, tolerance 1e-9;
         (ii) the spec predicates the theorems establish (orth, det, maps, fixes-axis, angle, frame, rigid,
         dihedral-at-target) evaluated EXACTLY in Lean on the floats the real code returned (floats are dyadic
-        rationals), incl. the degenerate neighbourhoods (v2 within 1e-3..1e-12 of −v1, exact (anti)parallel,
+        rationals), incl. the degenerate neighbourhoods (v2 within 1e-3..1e-12 of −v1, v2 within 3e-2..1e-9 of +v1
+        at tolerance 1e-11, exact (anti)parallel,
         angle 0 / π, axis-aligned vectors).
 Oracle: model-free numpy: distance matrices, signed volumes, dihedral() before/after, bit-identity of unmoved
         rows, centroids, recomputed RMSD, pose independence.
@@ -28,6 +30,10 @@ from harness import geomlib as G
 from harness.geomlib import fbits, ftoks, qtoks, frtok, TOL, TOL_DEG
 
 ELEMENTS = ["C", "N", "O", "H", "F", "S", "Cl", "P"]
+
+
+NEAR_PAR_DELTAS = [3e-2, 1e-2, 1e-3, 3e-4, 1e-4, 3e-5, 1e-5, 1e-6, 1e-7, 1e-8, 1e-9]
+TOL_PAR = 1e-11     # near-parallel inputs are perfectly conditioned (1 + c ≈ 2): the unchanged code is exact to ~1e-16
 
 
 class Batch:
@@ -190,6 +196,19 @@ def sec_rotvec_degenerate(ctx, B, nbase):
                       expect_flags(ctx, "rotation_matrix_from_vectors near antiparallel", tag, SPECROT_KINDS))
                 ctx.case(["rotvec-deg", v1.tolist(), d, tolarg, k2], nontrivial=True)
                 ctx.count(f"rotvec.degenerate.delta={d:g}")
+        # nearly parallel: v2 = v1 + δ·⊥ — any "already aligned" shortcut would leave v1 up to sqrt(2·tol) off v2
+        for d in NEAR_PAR_DELTAS:
+            for tolarg in (None, 1e-6, 1e-4):
+                k2 = scales(rng)
+                v2 = (v1 + d * np.linalg.norm(v1) * p) * k2
+                tag = {"op": "rotation_matrix_from_vectors", "v1": v1.tolist(), "v2": v2.tolist(), "delta_parallel": d, "tol": tolarg}
+                kw = {} if tolarg is None else {"tol": tolarg}
+                R = rmv(v1, v2, **kw)
+                rot_oracle(ctx, R, v1, v2, TOL_PAR, tag, "C11:rotvec")
+                B.add(f"specrot {ftoks(R)} {ftoks(v1)} {ftoks(v2)} 1/100000000000",
+                      expect_flags(ctx, "rotation_matrix_from_vectors near parallel", tag, SPECROT_KINDS))
+                ctx.case(["rotvec-nearpar", v1.tolist(), d, tolarg, k2], nontrivial=True)
+                ctx.count(f"rotvec.near-parallel.delta={d:g}")
         # exactly parallel
         R = rmv(v1, v1 * 2.5)
         rot_oracle(ctx, R, v1, v1 * 2.5, TOL, {"op": "rotation_matrix_from_vectors", "v1": v1.tolist(), "v2": "2.5*v1"}, "C11:rotvec")
@@ -199,14 +218,15 @@ def sec_rotvec_degenerate(ctx, B, nbase):
     for _ in range(nbase * 3):
         b = G.rational_unit(rng)
         w = G.rational_unit(rng)
-        q = rng.choice([10 ** 3, 10 ** 4, 10 ** 5, 10 ** 6, 10 ** 7, 0])
+        q = rng.choice([10 ** 2, 10 ** 3, 10 ** 4, 10 ** 5, 10 ** 6, 10 ** 7, 0])
+        sgn = rng.choice([-1, -1, 1])          # a near −b (antiparallel side) or near +b (parallel side)
         if q == 0:
-            a = tuple(-x for x in b)
+            a = tuple(sgn * x for x in b)
         else:
             t = Fraction(1, q)
             s, c = 2 * t / (1 + t * t), (1 - t * t) / (1 + t * t)
             M = G.rot_axis_q(w, s, c)
-            nb = [-x for x in b]
+            nb = [sgn * x for x in b]
             a = tuple(sum(nb[i] * M[i][j] for i in range(3)) for j in range(3))
         cab = sum(x * y for x, y in zip(a, b))
         for tolarg, tolq in ((None, Fraction(1, 10 ** 8)), (1e-6, Fraction(1, 10 ** 6))):
@@ -239,9 +259,9 @@ def sec_rotvec_degenerate(ctx, B, nbase):
             ltol = TOL if (not anti and 1 + float(cab) > 1e-3) else TOL_DEG
             B.add(f"rotvecfull {mvar} {qtoks(a)} {qtoks(b)} {frtok(tolq)} {fbits(nfl)} {ftoks(rv)}",
                   expect_array(ctx, "rotation_matrix_from_vectors (near antiparallel) differs from the model", tag, R, "m", ltol))
-            rot_oracle(ctx, R, v1, v2, TOL_DEG, tag, "C11:rotvec")
+            rot_oracle(ctx, R, v1, v2, TOL_PAR if sgn == 1 else TOL_DEG, tag, "C11:rotvec")
             ctx.case(["rotvec-anti-q", qtoks(a), qtoks(b), tolarg], nontrivial=True)
-            ctx.count("rotvec.rational-near-antiparallel." + ("anti" if anti else "general"))
+            ctx.count("rotvec.rational-near-" + ("parallel" if sgn == 1 else "antiparallel") + "." + ("anti" if anti else "general"))
 
 
 # ------------------------------------------------------------------------------------------
@@ -427,11 +447,100 @@ def sec_corpus(ctx, B):
                 v1, v2 = np.array(r["v1"], dtype=float), np.array(r["v2"], dtype=float)
                 kw = {} if r.get("tol") is None else {"tol": r["tol"]}
                 R = rmv(v1, v2, **kw)
-                rot_oracle(ctx, R, v1, v2, TOL_DEG, r, "C11:rotvec")
-                B.add(f"specrot {ftoks(R)} {ftoks(v1)} {ftoks(v2)} 1/1000000",
+                ctol = float(r.get("check_tol", TOL_DEG))
+                rot_oracle(ctx, R, v1, v2, ctol, r, "C11:rotvec")
+                B.add(f"specrot {ftoks(R)} {ftoks(v1)} {ftoks(v2)} {frtok(Fraction(ctol).limit_denominator(10 ** 15))}",
                       expect_flags(ctx, "rotation_matrix_from_vectors (corpus)", r, SPECROT_KINDS))
                 ctx.case(["corpus-rotvec", r["v1"], r["v2"]], nontrivial=True)
                 ctx.count("corpus.rotvec")
+
+
+def stale_handle_case(ctx, B, ml, mol0, edges, sample=False):
+    """A Substructure is created first; then the PARENT is edited (atoms deleted below / above the selection, an atom
+    added, the coordinate table re-assigned); only then is the old handle used to move its atoms.  Exactly the
+    handle's atoms (by identity) must move, rigidly."""
+    from molli.chem import Atom, Element
+    rng = ctx.rng
+    n = mol0.n_atoms
+    if n < 4:
+        return
+    els = [a.element.name for a in mol0.atoms]
+    coords0 = np.array(mol0.coords, dtype=float)
+    mol = G.build_molecule(ml, els, edges, coords0, name="st")
+    ids = {id(a): 100 + i for i, a in enumerate(mol.atoms)}
+    k = rng.range(1, n - 2)
+    sel = sorted(rng.shuffle(list(range(n)))[:k])
+    order = rng.shuffle(list(sel))
+    handle_atoms = [mol.atoms[i] for i in order]
+    handle_ids = [ids[id(a)] for a in handle_atoms]
+    sub = mol.substructure(order)
+    _ = sub.coords  # the handle has been used once already (whatever it caches is cached now)
+    unsel = [i for i in range(n) if i not in sel]
+    # parent edits after the handle exists
+    below = [i for i in unsel if i < max(sel)]
+    above = [i for i in unsel if i > min(sel)]
+    dels = []
+    if below and rng.chance(3, 4):
+        dels.append(rng.choice(below))
+    if above and rng.chance(1, 2):
+        c = rng.choice(above)
+        if c not in dels:
+            dels.append(c)
+    if len(dels) == len(unsel) and len(dels) > 1:
+        dels.pop()
+    edits = []
+    for i in dels:
+        mol.del_atom([a for a in mol.atoms if ids[id(a)] == 100 + i][0])
+        edits.append(["del", i])
+    if rng.chance(1, 2):
+        na = Atom(Element.H, label="added")
+        pos = [rng.range(-40, 40) / 8 for _ in range(3)]
+        mol.add_atom(na, pos)
+        ids[id(na)] = 100 + n
+        edits.append(["add", pos])
+    if rng.chance(1, 2):
+        w = np.array([rng.range(-16, 16) / 8 for _ in range(3)])
+        mol.coords = np.array(mol.coords) + w
+        edits.append(["reassign-coords", w.tolist()])
+    if not edits:
+        return
+    cur_ids = [ids[id(a)] for a in mol.atoms]
+    m = mol.n_atoms
+    Mq, Mf = rational_rotation(rng)
+    v = np.array([rng.range(-24, 24) / 8 for _ in range(3)])
+    before = np.array(mol.coords, dtype=float).copy()
+    tag = {"op": "edit through a substructure handle created before the parent was edited", "coords0": coords0.tolist(),
+           "edges": [list(e) for e in edges], "handle": order, "parent_edits": edits, "R": Mf.tolist(), "v": v.tolist()}
+    try:
+        sub.transform(Mf)
+        sub.translate(v)
+    except Exception as e:  # noqa: BLE001
+        ctx.violation("C11:substructure-edit-moves-unselected-atoms", f"editing through an older substructure handle raised {type(e).__name__}: {e}", tag)
+        ctx.case(["stale-handle", coords0.tolist(), order, edits], nontrivial=True)
+        return
+    after = np.array(mol.coords, dtype=float).copy()
+    hid = set(handle_ids)
+    moved = {i for i, x in enumerate(cur_ids) if x in hid}
+    check_rigid(ctx, before, after, moved, rng, tag, "C11:substructure-edit")
+    exp = before.copy()
+    rows = sorted(moved)
+    exp[rows] = before[rows] @ Mf + v
+    if after.shape != exp.shape or not G.close(after, exp, 1e-9):
+        ctx.violation("C11:substructure-edit-moves-unselected-atoms",
+                      "after parent edits the old handle did not move exactly its own atoms by p ↦ p@R + v", tag)
+    B.add(f"viewedit {m} {' '.join(map(str, cur_ids))} {ftoks(before)} {len(handle_ids)} {' '.join(map(str, handle_ids))} "
+          f"{qtoks([x for row in Mq for x in row])} {ftoks(v)}",
+          expect_array(ctx, "edit through an older substructure handle differs from the model", tag, after, "c"))
+    B.add(f"rigidcheck {m} {ftoks(before)} {ftoks(after)} {len(rows)} {' '.join(map(str, rows))} 1/100000000",
+          expect_flags(ctx, "substructure edit (handle older than parent edits)", tag,
+                       {"frame": "C11:substructure-edit-moves-unselected-atoms", "dist": "C11:substructure-edit-changes-distances",
+                        "chir": "C11:substructure-edit-changes-handedness"}))
+    ctx.case(["stale-handle", coords0.tolist(), order, edits, Mf.tolist(), v.tolist()], nontrivial=True)
+    ctx.count("mol.substructure-edit.handle-older-than-parent-edits")
+    for e in edits:
+        ctx.count("mol.substructure-edit.parent-edit=" + e[0])
+    if sample:
+        ctx.sample({"op": tag["op"], "n_atoms": n, "handle": order, "parent_edits": edits})
 
 
 def sec_molecules(ctx, B, nmol):
@@ -489,6 +598,9 @@ def sec_molecules(ctx, B, nmol):
                                                           "chir": "C11:substructure-edit-changes-handedness"}))
         ctx.case(["subedit", before.tolist(), order, Mf.tolist(), v.tolist()], nontrivial=True)
         ctx.count("mol.substructure-edit")
+        # ---- substructure handles made BEFORE the parent is edited (delete below/above the selection, add, re-assign coords) ----
+        for _rep in range(2):
+            stale_handle_case(ctx, B, ml, mol, edges, sample=(mi == 0 and _rep == 0))
         # ---- dihedral + rotate_dihedral on every rotatable acyclic bond ----
         adj = G.adjacency(n, edges)
         for (x, y) in edges:
@@ -667,8 +779,10 @@ def run(ctx):
     ctx.rule = ("rotation constructors: rational unit vectors (Pythagorean quadruples ≤ 21, random signs/permutations, scaled by "
                 "1e-3…100) and tangent-half-angle (sin, cos) incl. angle 0/±90°/180°; degenerate neighbourhoods: v2 = −v1 + δ·⊥ for "
                 "δ ∈ {1e-3 … 1e-12, 0} on axis-aligned, rational and random v1, both tol = 1e-8 (default) and 1e-6 (join), each called "
-                "twice under different numpy RNG states; molecules: random 3-D trees / single-ring graphs of 5–12 atoms on a 1/8 Å grid: "
-                "translate, transform, substructure edits on random subsets, dihedral and rotate_dihedral on EVERY rotatable acyclic "
+                "twice under different numpy RNG states; NEARLY PARALLEL pairs v2 = v1 + δ·⊥, δ ∈ {3e-2 … 1e-9}, tol ∈ {default, 1e-6, 1e-4}, "
+                "direction checked to 1e-11; rational unit pairs within 2·atan(1/q), q = 1e2…1e7, of ±b against the model; molecules: random 3-D trees / single-ring graphs of 5–12 atoms on a 1/8 Å grid: "
+                "translate, transform, substructure edits on random subsets — also through handles created BEFORE the parent was edited "
+                "(atoms deleted below/above the selection, atom added, coordinate table re-assigned) —, dihedral and rotate_dihedral on EVERY rotatable acyclic "
                 "bond in both directions; ensembles of 1–4 conformers: translate (1-d, 2-d), rotate (matrix, stack), center_at_core, "
                 "center_at_atom, align_to_ref_coords (Kabsch callback, 1–2 index lists, with/without vec) + Molecule.align_to_ref_coords. "
                 "Non-trivial: the operation is not the identity (a ≠ b, angle ≠ 0, v ≠ 0, target ≠ current dihedral); distinct by input.")
@@ -680,7 +794,7 @@ def run(ctx):
     ctx.proof(props=["Molli.Props.C11"])
     q = ctx.quick()
     if not q:
-        G.leanchecker(ctx, ["Molli.Props.C11", "Molli.Lemmas.GeomOrdered", "Molli.Lemmas.GeomField", "Molli.Lemmas.Geom", "Molli.Lemmas.GeomCert"])
+        G.leanchecker(ctx, ["Molli.Props.C11", "Molli.Lemmas.GeomView", "Molli.Lemmas.GeomOrdered", "Molli.Lemmas.GeomField", "Molli.Lemmas.Geom", "Molli.Lemmas.GeomCert"])
     B = Batch()
     sec_corpus(ctx, B)
     sec_rotvec(ctx, B, 400 if q else 20000)
